@@ -11,7 +11,7 @@ import (
 	"verif/engine/explore"
 )
 
-func scenario(name string, ad tsoh.Admin, pre, dev int, tiers string, faults bool, bigCount uint32, rounds int, kinds uint32) *explore.Scenario {
+func scenario(name string, ad tsoh.Admin, pre, dev int, tiers string, faults bool, bigCount uint32, rounds int, kinds uint32, fixedClock time.Duration) *explore.Scenario {
 	return &explore.Scenario{Name: name, MaxPre: pre, MaxDev: dev, Tiers: tiers, Opts: sched.Options{Kinds: kinds}, Setup: func() *explore.Instance {
 		w := tsoh.NewWorld(false)
 		n1 := w.AddNode(1, nil)
@@ -27,7 +27,11 @@ func scenario(name string, ad tsoh.Admin, pre, dev int, tiers string, faults boo
 				func() { w.Request(n1, 2) },
 				func() {
 					sched.SetMember(1)
-					tsoh.ClockChoice(50*time.Millisecond, time.Millisecond, 3*time.Second, -time.Hour, time.Hour)
+					if fixedClock != 0 {
+						vclock.Advance(fixedClock)
+					} else {
+						tsoh.ClockChoice(50*time.Millisecond, time.Millisecond, 3*time.Second, -time.Hour, time.Hour)
+					}
 					n1.AM.VerifAllocatorUpdaterSync()
 					if rounds > 1 {
 						tsoh.ClockChoice(50*time.Millisecond, time.Millisecond, 3*time.Second)
@@ -46,14 +50,25 @@ func scenario(name string, ad tsoh.Admin, pre, dev int, tiers string, faults boo
 
 func main() {
 	var l []*explore.Scenario
-	for _, ad := range append(tsoh.Admins(), tsoh.Handover(0), tsoh.Handover(-time.Hour), tsoh.Handover(time.Hour)) {
-		noAtomics := uint32(1<<sched.KLock | 1<<sched.KRLock | 1<<sched.KEtcd | 1<<sched.KUser | 1<<sched.KWait | 1<<sched.KStart)
-		k := noAtomics
-		if strings.HasPrefix(ad.Name, "reset") || strings.HasPrefix(ad.Name, "handover") {
-			k = 0 // leadership changes: lease/leader atomics are scheduling points too
+	noAtomics := uint32(1<<sched.KLock | 1<<sched.KRLock | 1<<sched.KEtcd | 1<<sched.KUser | 1<<sched.KWait | 1<<sched.KStart)
+	ads := append(tsoh.Admins(), tsoh.Handover(0), tsoh.Handover(-time.Hour), tsoh.Handover(time.Hour))
+	ads = append(ads, tsoh.Seq("handover-after-set+10s", tsoh.Admins()[6], tsoh.Handover(0)))
+	for _, ad := range ads {
+		lead := strings.HasPrefix(ad.Name, "reset") || strings.HasPrefix(ad.Name, "handover")
+		switch {
+		case strings.Contains(ad.Name, "after-set"):
+			l = append(l, scenario(ad.Name+"/clk+50ms", ad, 2, 0, "quick", false, 3, 1, noAtomics, 50*time.Millisecond))
+		case lead:
+			// leadership changes: lease/leader atomics are scheduling points too; the
+			// clock answer is a scenario parameter in the quick tier.
+			l = append(l, scenario(ad.Name+"/clk+50ms", ad, 2, 0, "quick", false, 3, 1, 0, 50*time.Millisecond))
+			l = append(l, scenario(ad.Name+"/clk-1h", ad, 2, 0, "quick", false, 3, 1, 0, -time.Hour))
+		case strings.Contains(ad.Name, "overflow"):
+			l = append(l, scenario(ad.Name, ad, 2, 0, "quick", false, 3, 1, noAtomics, 0))
+		default:
+			l = append(l, scenario(ad.Name, ad, 2, 1, "quick", false, 3, 1, noAtomics, 0))
 		}
-		l = append(l, scenario(ad.Name, ad, 2, 1, "quick", false, 3, 1, k))
-		l = append(l, scenario(ad.Name+"@3", ad, 3, 2, "thorough", false, 3, 2, 0))
+		l = append(l, scenario(ad.Name+"@3", ad, 3, 2, "thorough", false, 3, 2, 0, 0))
 	}
 	_ = vclock.Epoch
 	explore.Main(&explore.Config{
